@@ -46,6 +46,8 @@ func CreateEvaluator(expression string, opts ...Option) (*Evaluator, error) {
 		return nil, err
 	}
 
+	compileRegexps(ast.(grammar.Expression))
+
 	eval := &Evaluator{
 		ast:                     ast.(grammar.Expression),
 		tagName:                 parsedOpts.withTagName,
